@@ -265,8 +265,8 @@ def run_c11(ctx: Ctx):
     import sparse
     ctx.trusted_base = PARSE_TRUST + ["Model/Bridge.v is a hand-written model of MarkerExpression._get_specifier (comparison / ~= / wildcard operators), from_specifier (incl. the python_full_version zero padding) and of the version branch of _evaluate "
                                       "(= packaging's Specifier(op operand).contains(value) = clause_sem) over tokenised atoms; tied to the code by the S-bridge stream (specifier view compared structurally, evaluate() on an interpreter grid, from_specifier results)",
-                                      "`in` / `not in` lists are outside the model (string containment; known finding pv-in-substring): direct oracle only"]
-    props_spec.proof_step(ctx, "Props/C11.v", ["C11_view", "C11_back", "C11_padding", "C11_merge", "C11_normalize", "C11_merge_pv", "C11_reversed", "C11_link", "C11_linked_ops", "C11_link_pv", "C11_linked_normaliser"], extra_targets=["Model/Bridge.v", "Model/CorrParse.v", "Model/Corr.v"])
+                                      "`in` / `not in` lists: the specifier VIEW is modelled (Bridge.in_view, theorems C11_in_view / C11_in_view_pv, BInView cases of S-bridge compare it structurally with .specifier); their evaluation is string containment (known finding pv-in-substring) and is decided by the direct oracle"]
+    props_spec.proof_step(ctx, "Props/C11.v", ["C11_view", "C11_in_view", "C11_in_view_pv", "C11_in_view_runs", "C11_back", "C11_padding", "C11_merge", "C11_normalize", "C11_merge_pv", "C11_reversed", "C11_link", "C11_linked_ops", "C11_link_pv", "C11_linked_normaliser"], extra_targets=["Model/Bridge.v", "Model/CorrParse.v", "Model/Corr.v"])
     if not any(b["kind"] == "translation" for b in ctx.broken):
         sbridge.stream_sbridge(ctx)
         sparse.stream_sparse(ctx, 120 if ctx.tier == "quick" else 1500)
